@@ -621,4 +621,14 @@ example : ∀ arrs, toMarrow {} exFields exRows = .ok arrs →
   · simp [exRows, Lemmas.C03.SValOK, Lemmas.C03.SFieldsOK, Lemmas.C03.SValsOK, Lemmas.C03.ScalarOK, IntTy.inRange,
       IntTy.min, IntTy.max]
 
+/-! `C03_wf` without `rawOK`: rows may carry raw key/value call streams.  Into a Map column the stream that does not
+alternate is refused (`Props.C01.map_refuses_non_alternating`) — `to_marrow` is an error, there is no array to speak
+about; the alternating one is accepted and the Map array is well formed with one row. -/
+example : (toMarrow {} Props.C01.exMapFields
+    [.record "R" (.cons "m" 0 (.mapRaw (.key (.str "x") (.key (.str "") .nil))) .nil)]).isErr = true := by decide +kernel
+example : (match toMarrow {} Props.C01.exMapFields
+      [.record "R" (.cons "m" 0 (.mapRaw (.key (.str "x") (.value (.int .i32 1) .nil))) .nil)] with
+    | .ok [a] => Props.C01.exMapFields.all (fun f => WF f a) && (decodeAll a).length == 1
+    | _ => false) = true := by decide +kernel
+
 end SaModel.Props.C03
